@@ -473,7 +473,9 @@ def shards(tier: str, seed: int) -> list[dict[str, Any]]:
 
 def floors(tier: str) -> dict[str, int]:
     k = 1 if tier == "quick" else 20
-    return {"marker_assignments": 20000 * k, "programs_exhaustive": 100 * k, "suppression_pairs": 300 * k,
+    # (the thorough tier generates 5.8 times the programs of the quick tier, not 20 times)
+    kp = 1 if tier == "quick" else 5
+    return {"marker_assignments": 20000 * k, "programs_exhaustive": 100 * kp, "suppression_pairs": 300 * kp,
             "verbatim_checks": 100 * k, "suppression_family_renders": 5000, "exact_trim_checks": 5000 * k,
             "lookalike_renders": 3000 * k, "translate_marker_assignments": 1500 * k}
 
